@@ -78,6 +78,7 @@ type parent struct {
 	finished map[int]*caseRes
 	results  map[int]*Result
 	handed   int
+	drains   int
 }
 
 // lockKeys: every loopback address the case may legitimately contact. Cases
@@ -155,14 +156,41 @@ func (p *parent) finish(res *Result) {
 		return
 	}
 	cr.close()
+	keys := lockKeys(cr.c, cr.exp)
 	p.mu.Lock()
 	p.results[res.ID] = res
 	p.finished[res.ID] = cr
-	for _, k := range lockKeys(cr.c, cr.exp) {
-		delete(p.busy, k)
-	}
-	p.cond.Broadcast()
 	p.mu.Unlock()
+	release := func() {
+		p.mu.Lock()
+		for _, k := range keys {
+			delete(p.busy, k)
+		}
+		p.cond.Broadcast()
+		p.mu.Unlock()
+	}
+	// Drain: a DoH / DoH3 request that did not complete keeps running (and, for
+	// some urls, redialing) for up to 6 s after Close, because mosdns detaches
+	// it from the caller's context. The shared [::1]:port of such a case is
+	// handed to the next case only after that time. (Not needed for soundness -
+	// foreign connections are recognised by their source port - but it keeps
+	// other cases' listeners clean.)
+	// Only a request that was still in flight when the case ended can linger
+	// (context error); a refused / failed one is over. Ambiguous-literal urls -
+	// the ones whose DoH transport redials in a loop - run at the very end of the
+	// schedule among themselves (see main) and their names are never judged.
+	inFlight := strings.Contains(res.ExchErr, "context deadline exceeded") || strings.Contains(res.ExchErr, "context canceled")
+	if len(keys) > 0 && (cr.c.Scheme == "https" || cr.c.Scheme == "h3") && !cr.c.AmbigPort && res.NewErr == "" && !res.ReplyOK && inFlight {
+		p.mu.Lock()
+		p.drains++
+		n := p.drains
+		p.mu.Unlock()
+		if n <= 4 { // bounded: a tree that breaks every DoH case must not stretch the run
+			time.AfterFunc(6500*time.Millisecond, release)
+			return
+		}
+	}
+	release()
 }
 
 func (p *parent) serve(conn net.Conn) {
@@ -710,7 +738,18 @@ func main() {
 		rep.Inconclusive("harness CA: %v", err)
 		rep.Finish()
 	}
-	p := &parent{ca: ca, cases: cases, pending: append([]*Case(nil), cases...), busy: map[string]bool{},
+	// schedule: cases whose DoH transport is known to keep redialing after Close
+	// (https / h3 with an ambiguous bare-IPv6:port url) go last, so that their
+	// late connections cannot meet any other case's listener
+	var first, last []*Case
+	for _, c := range cases {
+		if (c.Scheme == "https" || c.Scheme == "h3") && c.AmbigPort && len(lockKeys(c, c.expect())) > 0 {
+			last = append(last, c)
+		} else {
+			first = append(first, c)
+		}
+	}
+	p := &parent{ca: ca, cases: cases, pending: append(first, last...), busy: map[string]bool{},
 		running: map[int]*caseRes{}, finished: map[int]*caseRes{}, results: map[int]*Result{}}
 	p.cond = sync.NewCond(&p.mu)
 
@@ -731,6 +770,7 @@ func main() {
 
 func evaluate(p *parent, tr *traceResult) {
 	cases := p.cases
+	rep.Count("shared_loopback_ports_drained_6s_after_unfinished_doh", int64(p.drains))
 	rep.Count("strace_lines", int64(tr.Lines))
 	rep.Count("strace_sockets_created", int64(tr.Sockets))
 	rep.Count("strace_so_mark_labels", int64(tr.Marks))
